@@ -124,6 +124,26 @@ def unwrap(t, funcs=IDENT_FUNCS, methods=IDENT_METHODS, int_ok=False):
             return t
 
 
+def tags(conds):
+    """a path tag from the literals decided on the path (`==1,F,isnot`): the same however the branches are written"""
+    out = []
+    for c, v in conds:
+        if c[0] == "cmp":
+            out.append(("" if v else "not") + c[1] + (str(c[3][1]) if is_const(c[3]) and c[3][1] is not None else ""))
+        else:
+            out.append("T" if v else "F")
+    return ",".join(out)
+
+
+def eq_truth(p, pred=None, last=False):
+    """truth, on path p, of the positive form (== / is / in) of the first (or last) equality-like decision satisfying pred;
+    decisions are recorded as literals (`x != 1` True for `x == 1` False), so the polarity of the source never matters"""
+    for c, v in (reversed(p.conds) if last else p.conds):
+        if c[0] == "cmp" and c[1] in ("==", "!=", "is", "isnot", "in", "notin") and (pred is None or pred(c)):
+            return v if c[1] in ("==", "is", "in") else (not v)
+    return None
+
+
 def self_attr(name):
     return ("attr", SELF, name)
 
